@@ -106,6 +106,9 @@ func (st *ilStmt) sql(reg map[int32]string) string {
 		return fmt.Sprintf("UPDATE t SET id = %d WHERE id = %d;", st.ID2, st.ID)
 	case "upd-reloc":
 		return fmt.Sprintf("UPDATE t SET v = '%s' WHERE id = %d;", st.Tok+strings.Repeat("+", 40), st.ID)
+	case "upd-2col":
+		// two SET columns: k gets a value (often the one it already holds), v shrinks or grows - the row moves
+		return fmt.Sprintf("UPDATE t SET k = %d, v = '%s' WHERE id = %d;", st.K, st.Tok, st.ID)
 	case "upd-same", "rmw-blind":
 		return fmt.Sprintf("UPDATE t SET v = '%s' WHERE id = %d;", st.Tok, st.ID)
 	case "rmw-append":
@@ -163,6 +166,13 @@ func (st *ilStmt) apply(s ilState, reg map[int32]string) {
 		if r, ok := s[st.ID]; ok {
 			r = r.Clone()
 			r[2] = rm.Str(st.Tok + strings.Repeat("+", 40))
+			s[st.ID] = r
+		}
+	case "upd-2col":
+		if r, ok := s[st.ID]; ok {
+			r = r.Clone()
+			r[1] = rm.Int(st.K)
+			r[2] = rm.Str(st.Tok)
 			s[st.ID] = r
 		}
 	case "upd-same", "rmw-blind":
@@ -254,6 +264,9 @@ func genIlStmt(r *rand.Rand, tok string, rmw bool, fresh *int32) ilStmt {
 		*fresh++
 		return ilStmt{Kind: "upd-key", ID: id, ID2: *fresh}
 	case 10:
+		if r.Intn(2) == 0 {
+			return ilStmt{Kind: "upd-2col", ID: id, K: id % 3, Tok: tok + strings.Repeat("~", r.Intn(30))}
+		}
 		return ilStmt{Kind: "upd-reloc", ID: id, Tok: tok}
 	default:
 		return ilStmt{Kind: "upd-same", ID: id, Tok: (tok + "-------------")[:13]}
@@ -366,9 +379,16 @@ func ilCase(env *core.Env, idx int, prop string) *core.CaseResult {
 			default:
 				w = ilStmt{Kind: "upd-k", ID: id, K: int32(r.Intn(3))}
 			}
+			twoCol := r.Intn(4) == 0
+			if twoCol {
+				w = ilStmt{Kind: "upd-2col", ID: id, K: id % 3, Tok: tok + strings.Repeat("~", r.Intn(30))}
+			}
 			rd := []ilStmt{{Kind: "read-scan", ID: id}, {Kind: "read-idx", ID: id}, {Kind: "read-range", ID: id, ID2: id + 2}, {Kind: "read-k", K: int32(r.Intn(3))}}[r.Intn(4)]
 			if withJoin && r.Intn(2) == 0 {
 				rd = ilStmt{Kind: "read-join", K: id % 3} // the rows sharing the written row's k, reached through the join
+			}
+			if twoCol && r.Intn(2) == 0 {
+				rd = ilStmt{Kind: "read-k", K: id % 3} // the own, moved row through the index on the column that kept its value
 			}
 			progs[p].Stmts[0], progs[p].Stmts[1] = w, rd
 		}
